@@ -13,10 +13,24 @@
     outcome (ok (<call> ...)) | (err invalid|mismatch|os (<call> ...)) | crashed      call = (<op> ...)
     fact    (rel p v <node>) (member p v i <node>) (gen p v g (ok ord (sid ...))|corrupt) (state p v g sid <node>|missing)
     entry   (<path> <node>)
+
+  request   (hrun <impl> (<hevent> ...) <crash>)     several handles in several processes (ForML.Model.RegistryHandles)
+    hevent  <hop> | (die <hop> <k> none|<cut>)
+    hop     (open <h> <proc> <proj> none|<version> none|<generation>) | (publish <h> <name> <version> <pkg>)
+            | (begin <h> <ordinal> <n>) | (dump <h> <sid> (<byte> ...)) | (commit <h>) | (look <h>)
+    crash   none | (<event index> <k> none|<cut>)   the event at that index must be a plain <hop>
+  answer    (ok (<houtcome> ...) (<fact> ...) <wf> (<entry> ...))
+    houtcome (ok (<call> ...) none|notag|(tag ord (sid ...) ((<byte> ...) ...))) | (err <kind> (<call> ...)) | died
+             (look: the tag and, in its order, the bytes of the states loaded after it)
+
+  request   (vrun <impl> (<step> ...))               the volatile registry (ForML.Model.RegistryVolatile)
+  answer    (ok (<outcome> ...) (<fact> ...) <wf> (<entry> ...))    facts: (rel p v memory) (gen ...) (state ...)
 -/
 import ForML.Model.Sexp
 import ForML.Model.Fs
 import ForML.Model.Registry
+import ForML.Model.RegistryHandles
+import ForML.Model.RegistryVolatile
 open ForML ForML.Fs ForML.Registry
 
 def bytes? (x : Sexp) : Option Bytes := x.natList?
@@ -143,4 +157,98 @@ def stepC05 : Sexp → Sexp
     | _, _, _ => .atom "bad-op"
   | _ => .atom "bad-op"
 
-def main : IO Unit := driverLoop stepC05
+def optNat? : Sexp → Option (Option Nat)
+  | .atom "none" => some none
+  | x => x.nat?.map some
+
+def hop? : Sexp → Option (Nat × HOp)
+  | .list [.atom "open", h, pr, p, v, g] => do
+    pure (← h.nat?, .open (← pr.nat?) (← p.nat?) (← optNat? v) (← optNat? g))
+  | .list [.atom "publish", h, n, v, pk] => do pure (← h.nat?, .publish (← n.nat?) (← v.nat?) (← pkg? pk))
+  | .list [.atom "begin", h, o, n] => do pure (← h.nat?, .begin (← o.nat?) (← n.nat?))
+  | .list [.atom "dump", h, sid, b] => do pure (← h.nat?, .dump (← sid.nat?) (← bytes? b))
+  | .list [.atom "commit", h] => do pure (← h.nat?, .commit)
+  | .list [.atom "look", h] => do pure (← h.nat?, .look)
+  | _ => none
+
+def hev? : Sexp → Option HEv
+  | .list [.atom "die", o, k, c] => do
+    let (h, op) ← hop? o
+    pure (.die h op (← k.nat?) (← optNat? c))
+  | x => (hop? x).map (fun (h, op) => HEv.run h op)
+
+def herrS : HErr → Sexp
+  | .invalid => .atom "invalid"
+  | .mismatch => .atom "mismatch"
+  | .os => .atom "os"
+  | .empty => .atom "Empty"
+  | .assertion => .atom "AssertionError"
+  | .corrupt => .atom "corrupt"
+  | .noacc => .atom "noacc"
+  | .dead => .atom "dead"
+
+def houtS (o : HOut) (states : List Bytes) : Sexp :=
+  let calls := Sexp.list (o.calls.map (fun c => .list (c.map opS)))
+  match o.err with
+  | some e => .list [.atom "err", herrS e, calls]
+  | none =>
+    .list [.atom "ok", calls,
+      match o.look with
+      | none => .atom "none"
+      | some none => .atom "notag"
+      | some (some t) =>
+        .list [.atom "tag", Sexp.ofNat t.ordinal, Sexp.ofNats t.sids, .list (states.map Sexp.ofNats)]]
+
+def playAllH (impl : Impl) : World → List HEv → World × List Sexp
+  | w, [] => (w, [])
+  | w, .run h op :: rest =>
+    let o := perform impl w h op
+    let r := playAllH impl o.w rest
+    (r.1, houtS o (lookStates w h) :: r.2)
+  | w, .die h op k cut :: rest =>
+    let r := playAllH impl (applyH impl w (.die h op k cut)) rest
+    (r.1, .atom "died" :: r.2)
+
+def vFactsOf (st : VReg) : List Sexp :=
+  st.arts.flatMap (fun e =>
+    let p := e.1
+    let v := e.2
+    .list [.atom "rel", Sexp.ofNat p, Sexp.ofNat v, .atom "memory"]
+    :: (generationsOf st.fs p v).flatMap (fun g =>
+      match tagOf st.fs p v g with
+      | none => [.list [.atom "gen", Sexp.ofNat p, Sexp.ofNat v, Sexp.ofNat g, .atom "corrupt"]]
+      | some t =>
+        .list [.atom "gen", Sexp.ofNat p, Sexp.ofNat v, Sexp.ofNat g,
+               .list [.atom "ok", Sexp.ofNat t.ordinal, Sexp.ofNats t.sids]]
+        :: t.sids.map (fun s => .list [.atom "state", Sexp.ofNat p, Sexp.ofNat v, Sexp.ofNat g, Sexp.ofNat s,
+                                       nodeS (vVis st (stateP p v g s))])))
+
+def vPlayAll (impl : Impl) : VReg → List Step → VReg × List Sexp
+  | st, [] => (st, [])
+  | st, s :: rest =>
+    let o := vExec impl st s
+    let r := vPlayAll impl o.st rest
+    (r.1, outcomeS ⟨o.st.fs, o.calls, o.err⟩ :: r.2)
+
+def stepC05All : Sexp → Sexp
+  | .list [.atom "vrun", im, .list steps] =>
+    match impl? im, steps.mapM step? with
+    | some impl, some steps =>
+      let r := vPlayAll impl VReg.empty steps
+      .list [.atom "ok", .list r.2, .list (vFactsOf r.1), Sexp.ofBool (decide (WF r.1.fs)), .list (treeOf r.1.fs)]
+    | _, _ => .atom "bad-op"
+  | .list [.atom "hrun", im, .list evs, cr] =>
+    match impl? im, evs.mapM hev?, crash? cr with
+    | some impl, some evs, some none =>
+      let r := playAllH impl World.empty evs
+      answer r.2 r.1.fs
+    | some impl, some evs, some (some (i, k, cut)) =>
+      match evs[i]? with
+      | some (.run h op) =>
+        let r := playAllH impl World.empty (evs.take i)
+        answer r.2 (applyH impl r.1 (.die h op k cut)).fs
+      | _ => .atom "bad-op"
+    | _, _, _ => .atom "bad-op"
+  | x => stepC05 x
+
+def main : IO Unit := driverLoop stepC05All
